@@ -26,6 +26,8 @@ const HEADER_SIZE: usize = 512;
 const META_SIZE: usize = 16 * 1024; // Contains header and column stats
 const ENTRY_BITS: u8 = 64;
 pub const ENTRY_BYTES: usize = ENTRY_BITS as usize / 8;
+// Largest index size for which `Entry::address_bits` still fits into an entry.
+pub const MAX_INDEX_BITS: u8 = ENTRY_BITS - CHUNK_ENTRIES_BITS - SIZE_TIERS_BITS - 1;
 
 const EMPTY_CHUNK: Chunk = Chunk([0u8; CHUNK_LEN]);
 const EMPTY_ENTRIES: [Entry; CHUNK_ENTRIES] = [Entry::empty(); CHUNK_ENTRIES];
@@ -565,7 +567,7 @@ impl IndexTable {
 	}
 
 	pub fn validate_plan(&self, index: u64, log: &mut LogReader) -> Result<()> {
-		if index >= self.id.total_entries() {
+		if index >= self.id.total_chunks() {
 			return Err(Error::Corruption("Bad index".into()))
 		}
 		let mut buf = [0u8; 8];
